@@ -1,0 +1,28 @@
+//go:build verif
+
+package encryption
+
+// Machine-checked contracts for /verif/govc (contract-based deductive verification).
+// This file contains comments only; it is compiled only with -tags verif and adds no code.
+
+// Signature verification is external (BLS / ed25519 libraries). Its contract here: the verdict
+// (true, nil) means "signature valid for the public key last set on this scheme and this
+// message"; sig_valid is the uninterpreted ground truth.
+//@ uf sig_valid (Str Str Str) Bool
+//@ ghost $pk (Int) Str
+
+//@ iface 0chain.net/core/encryption.SignatureScheme.SetPublicKey
+//@   params self publicKey
+//@   modifies $pk
+//@   ensures result == nil ==> $pk[obj(self)] == publicKey
+//@   ensures forall o int :: o != obj(self) ==> $pk[o] == old($pk[o])
+
+//@ iface 0chain.net/core/encryption.SignatureScheme.Verify
+//@   params self signature hash
+//@   pure
+//@   ensures result0 && result1 == nil ==> sig_valid($pk[obj(self)], signature, hash)
+
+//@ iface 0chain.net/core/encryption.SignatureScheme.GetPublicKey
+//@   params self
+//@   pure
+//@   ensures result == $pk[obj(self)]
